@@ -35,6 +35,8 @@ from typing import (
 )
 
 import attrs
+
+from . import pools_b
 from adaptix import (
     Chain,
     DebugTrail,
@@ -276,6 +278,33 @@ else:
     PM = None
 
 
+TA = TypeVar("TA", bound="ProductA")
+
+
+@dataclass
+class ProductA:
+    name: str
+    price: int = 0
+
+
+@dataclass
+class ListingA(Generic[TA]):
+    item: TA
+    n: int = 0
+
+
+def _make_dup(tag_value):
+    """Two distinct model classes with the same name and module (legal: classes made by a factory)."""
+    @dataclass
+    class Dup:
+        x: int
+        tag: str = tag_value
+    return Dup
+
+
+DupA, DupB = _make_dup("A"), _make_dup("B")
+
+
 # conversion models
 @dataclass
 class SrcInner:
@@ -393,7 +422,8 @@ _t("union",
    UBoolInt=Union[bool, int], UIntBool=Union[int, bool], UFloatInt=Union[float, int], UIntFloat=Union[int, float],
    UNested=Union[int, Union[str, None]], UListIntStr=Union[List[int], str], OptListInt=Optional[List[int]],
    UM1M3=Union[M1, M3], UM3M1=Union[M3, M1], ULM1LM2=Union[List[M1], List[M2]], ULM2LM1=Union[List[M2], List[M1]],
-   UDM1DM2=Union[Dict[str, M1], Dict[str, M2]], UDM2DM1=Union[Dict[str, M2], Dict[str, M1]])
+   UDM1DM2=Union[Dict[str, M1], Dict[str, M2]], UDM2DM1=Union[Dict[str, M2], Dict[str, M1]],
+   UDupAB=Union[DupA, DupB], UDupBA=Union[DupB, DupA])
 _t("scalar",
    int=int, bool=bool, float=float, str=str, Decimal=Decimal, bytes=bytes, bytearray=bytearray, NoneT=type(None),
    Any=Any, object=object, Color=Color, Shade=Shade, Perm=Perm, BytesIO=io.BytesIO, IOBytes=typing.IO[bytes])
@@ -407,7 +437,7 @@ _t("model",
    WithDefaults=WithDefaults, KwModel=KwModel, StreamHolder=StreamHolder, ListNT=List[NT])
 _t("generic",
    GInt=G[int], GBool=G[bool], GStr=G[str], GListInt=G[List[int]], PairIntStr=Pair[int, str],
-   PairStrInt=Pair[str, int], PairBoolStr=Pair[bool, str], GBare=G)
+   PairStrInt=Pair[str, int], PairBoolStr=Pair[bool, str], GBare=G, ListingA=ListingA, ListingB=pools_b.ListingB)
 _t("recursive",
    Node=Node, ListNode=List[Node], Tree=Tree, RA=RA, RB=RB, LinkedInt=Linked[int], LinkedStr=Linked[str],
    LinkedBool=Linked[bool], Outer1=Outer1, Outer2=Outer2, Holder=Holder, OptNode=Optional[Node],
@@ -418,6 +448,29 @@ if PM is not None:
     _t("model", PM=PM)
 
 RECURSIVE_TYPES = [n for n, f in FAMILY.items() if f == "recursive"]
+
+# groups of hints that collide under ==, hash, str, location equality or shape: a history that has used one
+# member is steered towards the others
+CONFUSABLE_GROUPS = [
+    ["Lit01", "LitFT", "Lit10", "LitTF"], ["Lit0", "LitF"], ["Lit1", "LitT", "LitColorR"], ["LitA1", "LitAT"],
+    ["OptLit01", "OptLitFT"], ["ULit0Str", "ULitFStr"], ["TupLit01", "TupLitFT"], ["ListLit01", "ListLitFT"],
+    ["GLit01", "GLitFT"], ["LitNone0", "LitNoneF"], ["LitShade", "LitShadeStr"],
+    ["UIntStr", "UStrInt", "UIntStrNone", "UNested"], ["OptInt", "UIntNone", "UNoneInt", "PipeIntNone"],
+    ["UBoolInt", "UIntBool"], ["UFloatInt", "UIntFloat"], ["UM1M3", "UM3M1"], ["ULM1LM2", "ULM2LM1"],
+    ["UDM1DM2", "UDM2DM1"], ["UDupAB", "UDupBA"],
+    ["ListInt", "listInt", "SeqInt", "IterInt", "TupIntEll", "TupInt", "SetInt", "FSetInt", "DequeInt"],
+    ["DictStrInt", "dictStrInt", "MapStrInt", "MMapStrInt", "DDictStrInt"],
+    ["DictStrListInt", "DDictStrListInt", "MapStrListInt", "MMapStrListInt"],
+    ["M1", "M2", "M3", "ListM1", "ListM2", "OptM1", "DictStrM1"], ["Outer1", "Outer2"], ["N1", "N2", "ListN1", "ListN2"],
+    ["AnnInt0", "AnnIntF", "AnnIntX"], ["AnnListInt1", "AnnListIntT"], ["GInt", "GBool", "GStr", "GBare"],
+    ["PairIntStr", "PairStrInt", "PairBoolStr"], ["ListingA", "ListingB"], ["LinkedInt", "LinkedStr", "LinkedBool"], ["TupIntStr", "TupBoolStr"],
+    ["RA", "RB"], ["Node", "ListNode", "OptNode", "DictStrNode", "Holder"], ["int", "bool", "float", "Color"],
+    ["Unsupported", "ListUnsupported", "CallableT"], ["bytes", "bytearray", "BytesIO", "IOBytes"],
+]
+PARTNERS: Dict[str, List[str]] = {}
+for _g in CONFUSABLE_GROUPS:
+    for _m in _g:
+        PARTNERS.setdefault(_m, []).extend(x for x in _g if x != _m)
 
 # ------------------------------------------------------------------------------------------------
 # data pool (for loaders): name -> datum
@@ -469,6 +522,9 @@ DATA: Dict[str, Any] = {
     "unsupported": {"ok": 1}, "fwd": {"x": 1, "late": {"z": 2}}, "fwd_none": {"x": 1},
     "pm": {"a": 1, "items": [1, 2]},
     "tup_is": [1, "s"], "tup_Ts": [True, "s"], "tup_01": [0, 1], "tup_FT": [False, True],
+    "dup_x": {"x": 1}, "listing_a": {"item": {"name": "x", "price": 2}, "n": 1}, "listing_b": {"item": {"title": "y"}, "n": 2},
+    "m_legacy": {"legacy_a": 1, "m1_a": 5, "a": 7, "b": "x"},
+    "outer_upper": {"name": "o", "inner": {"V": 1, "TAGS": ["t"], "v": 2, "tags": ["u"]}, "node": NODE4},
     "dec": "1.50", "color1": 1, "colorR": "R", "perm3": 3, "perm_names": ["RD", "WR"],
     # a defaultdict is a legal mapping input; looking up a missing required key in it has a side effect
     "dd_m_b": collections.defaultdict(int, {"b": "y"}), "dd_m_a": collections.defaultdict(int, {"a": 1}),
@@ -496,24 +552,25 @@ BATTERY: Dict[str, List[str]] = {
     "UFloatInt": ["f1", "f0"], "UIntFloat": ["f1", "f0"], "UNested": ["s1"], "UListIntStr": ["l1", "s1", "lA"],
     "OptListInt": ["l1", "lA"], "UM1M3": ["m_ab", "m_aTb", "m_bad"], "UM3M1": ["m_ab", "m_aTb", "m_bad"],
     "ULM1LM2": ["lm", "l1"], "ULM2LM1": ["lm", "l1"], "UDM1DM2": ["dm"], "UDM2DM1": ["dm"],
+    "UDupAB": ["dup_x"], "UDupBA": ["dup_x"],
     "float": ["f1"], "str": ["s1"], "Decimal": ["dec", "f1"], "bytes": ["b64", "sX"], "bytearray": ["b64"],
     "Any": ["lmix"], "object": ["lmix"], "Color": ["color1", "colorR"], "Shade": ["sDark"], "Perm": ["perm3", "i2", "perm_names"],
     "BytesIO": ["b64"], "IOBytes": ["b64"],
     "N3": ["s1"], "ListN1": ["l1", "lTF"], "ListN2": ["l1", "lTF"],
     "AnnListInt1": ["l1", "lTF"], "AnnListIntT": ["l1", "lTF"],
-    "M1": ["m_ab", "m_aTb", "m_a", "m_bad", "m_extra", "dd_m_b", "dd_m_a"], "M2": ["m_ab", "m_aTb", "m_a", "m_bad", "dd_m_b"],
-    "M3": ["m_ab", "m_aTb", "m_a", "m_bad"], "ListM1": ["lm"], "ListM2": ["lm"], "OptM1": ["m_ab", "m_bad"],
+    "M1": ["m_ab", "m_aTb", "m_a", "m_bad", "m_extra", "dd_m_b", "dd_m_a", "m_legacy"],
+    "M2": ["m_ab", "m_aTb", "m_a", "m_bad", "dd_m_b", "m_legacy"], "M3": ["m_ab", "m_aTb", "m_a", "m_bad", "m_legacy"], "ListM1": ["lm"], "ListM2": ["lm"], "OptM1": ["m_ab", "m_bad"],
     "DictStrM1": ["dm"], "Inner": ["inner", "inner_neg", "inner_extra", "dd_inner"], "NT": ["nt", "nt_tags"], "ListNT": ["lnt"],
     "TD": ["td", "td_a"], "AT": ["at", "at_a"], "SnakeCase": ["snake", "snake_camel"], "WithAny": ["withany"],
     "WithExtra": ["withextra", "withextra_plain"], "WithDefaults": ["withdefaults_empty", "withdefaults_full"],
     "KwModel": ["kw", "m_a"], "StreamHolder": ["stream", "stream_bad"],
     "GInt": ["g_v1", "g_vT", "g_vs"], "GBool": ["g_v1", "g_vT", "g_vTb"], "GStr": ["g_vs", "g_v1"], "GListInt": ["g_vl"],
-    "GBare": ["g_v1", "g_vs"], "PairIntStr": ["pair_is", "pair_si", "pair_Ts"], "PairStrInt": ["pair_is", "pair_si"],
+    "GBare": ["g_v1", "g_vs"], "ListingA": ["listing_a", "listing_b"], "ListingB": ["listing_b", "listing_a"], "PairIntStr": ["pair_is", "pair_si", "pair_Ts"], "PairStrInt": ["pair_is", "pair_si"],
     "PairBoolStr": ["pair_is", "pair_Ts"],
     "Node": ["node4", "node4_bad", "node1"], "ListNode": ["lnode"], "Tree": ["tree3", "tree3_bad"],
     "RA": ["ra3"], "RB": ["rb3"], "LinkedInt": ["linked_int", "linked_str", "linked_bool"],
     "LinkedStr": ["linked_str", "linked_int"], "LinkedBool": ["linked_bool", "linked_int"],
-    "Outer1": ["outer", "outer_bad"], "Outer2": ["outer", "outer_bad"], "Holder": ["holder"],
+    "Outer1": ["outer", "outer_bad", "outer_upper"], "Outer2": ["outer", "outer_bad", "outer_upper"], "Holder": ["holder"],
     "OptNode": ["node4", "node4_bad"], "DictStrNode": ["dnode"],
     "Unsupported": ["unsupported"], "FwdUser": ["fwd", "fwd_none"], "ListUnsupported": ["empty_l"],
     "PM": ["pm"],
@@ -592,6 +649,8 @@ OBJECTS: Dict[str, Any] = {
     "o_kw": lambda: KwModel(1, p=[1]),
     "o_stream": lambda: StreamHolder(_stream(b"hello world", 3), bytearray(b"abc")),
     "o_bytesio": lambda: _stream(b"hello world", 3), "o_bytesio0": lambda: _stream(b"xyz", 0),
+    "o_faulty_stream": lambda: FaultyStream(b"hello world", 3), "o_text_stream": lambda: _text_stream("header|payload", 7),
+    "o_stream_faulty": lambda: StreamHolder(FaultyStream(b"hello world", 4), bytearray(b"abc")),
     "o_gint": lambda: G(1, [2, 3]), "o_gT": lambda: G(True, [False]), "o_gstr": lambda: G("s", ["t"]),
     "o_glist": lambda: G([1], [[2]]), "o_g01": lambda: G(0, [1, 0]), "o_gFT": lambda: G(False, [True]),
     "o_pair_is": lambda: Pair(1, "s"), "o_pair_si": lambda: Pair("s", 1), "o_pair_Ts": lambda: Pair(True, "s"),
@@ -605,7 +664,8 @@ OBJECTS: Dict[str, Any] = {
     "o_unsupported": lambda: Unsupported(1), "o_fwd": lambda: FwdUser(1, _LateBoundImpl(2)), "o_fwd_none": lambda: FwdUser(1),
     "o_srcouter": _srcouter, "o_srcinner": lambda: SrcInner([1], {"k": [1]}),
     "o_lsrcinner": lambda: [SrcInner([1]), SrcInner([2], {"k": [3]})],
-    "o_csrc": lambda: CSrc(1, 2),
+    "o_listing_a": lambda: ListingA(ProductA("x", 2), 1), "o_listing_b": lambda: pools_b.ListingB(pools_b.ProductB("y"), 2),
+    "o_csrc": lambda: CSrc(1, 2), "o_dupA": lambda: DupA(1), "o_dupB": lambda: DupB(2),
     "o_dsrcinner": lambda: {"p": SrcInner([1]), "q": SrcInner([2], {"k": [3]})},
 }
 if PM is not None:
@@ -614,6 +674,28 @@ if PM is not None:
 
 def _stream(content, pos):
     s = io.BytesIO(content)
+    s.seek(pos)
+    return s
+
+
+class FaultyStream(io.BytesIO):
+    """Simulated storage fault: the first `fail_reads` calls of read() fail like a disk error does. The
+    fault counter belongs to the simulated device, not to the datum (it is not part of the signature)."""
+
+    def __init__(self, content, pos, fail_reads=1):
+        super().__init__(content)
+        self.seek(pos)
+        self.fail_reads = fail_reads
+
+    def read(self, *a):
+        if self.fail_reads > 0:
+            self.fail_reads -= 1
+            raise OSError(5, "simulated read error")
+        return super().read(*a)
+
+
+def _text_stream(content, pos):
+    s = io.StringIO(content)
     s.seek(pos)
     return s
 
@@ -644,17 +726,18 @@ DUMP_BATTERY: Dict[str, List[str]] = {
     "UFloatInt": ["o_i1", "o_f1"], "UIntFloat": ["o_i1", "o_f1"], "UNested": ["o_i1", "o_a", "o_none"],
     "UListIntStr": ["o_l01", "o_a"], "OptListInt": ["o_l01", "o_none"], "UM1M3": ["o_m1", "o_m3"], "UM3M1": ["o_m1", "o_m3"],
     "ULM1LM2": ["o_lm1", "o_lm2"], "ULM2LM1": ["o_lm1", "o_lm2"], "UDM1DM2": ["o_dm1"], "UDM2DM1": ["o_dm1"],
+    "UDupAB": ["o_dupA", "o_dupB"], "UDupBA": ["o_dupA", "o_dupB"],
     "int": ["o_i1", "o_T"], "bool": ["o_T", "o_i1"], "float": ["o_f1"], "str": ["o_a"], "Decimal": ["o_dec"],
     "bytes": ["o_bytes"], "bytearray": ["o_barr"], "NoneT": ["o_none"], "Any": ["o_lmix"], "object": ["o_lmix"],
     "Color": ["o_colorR", "o_colorG"], "Shade": ["o_dark"], "Perm": ["o_perm3"], "BytesIO": ["o_bytesio", "o_bytesio0"],
-    "IOBytes": ["o_bytesio", "o_bytesio0"],
+    "IOBytes": ["o_bytesio", "o_bytesio0", "o_faulty_stream", "o_text_stream"],
     "N1": ["o_i1"], "N2": ["o_i1"], "N3": ["o_a"], "ListN1": ["o_l01"], "ListN2": ["o_l01"],
     "AnnInt0": ["o_i1"], "AnnIntF": ["o_i1"], "AnnIntX": ["o_i1"], "AnnListInt1": ["o_l01"], "AnnListIntT": ["o_l01"],
     "M1": ["o_m1", "o_m1T"], "M2": ["o_m2"], "M3": ["o_m3"], "ListM1": ["o_lm1"], "ListM2": ["o_lm2"],
     "OptM1": ["o_m1", "o_none"], "DictStrM1": ["o_dm1"], "Inner": ["o_inner"], "NT": ["o_nt"], "ListNT": ["o_lnt"],
     "TD": ["o_td"], "AT": ["o_at"], "SnakeCase": ["o_snake"], "WithAny": ["o_withany"], "WithExtra": ["o_withextra"],
-    "WithDefaults": ["o_withdefaults", "o_withdefaults_full"], "KwModel": ["o_kw"], "StreamHolder": ["o_stream"],
-    "GInt": ["o_gint", "o_gT"], "GBool": ["o_gT"], "GStr": ["o_gstr"], "GListInt": ["o_glist"], "GBare": ["o_gint"],
+    "WithDefaults": ["o_withdefaults", "o_withdefaults_full"], "KwModel": ["o_kw"], "StreamHolder": ["o_stream", "o_stream_faulty"],
+    "GInt": ["o_gint", "o_gT"], "GBool": ["o_gT"], "GStr": ["o_gstr"], "GListInt": ["o_glist"], "GBare": ["o_gint"], "ListingA": ["o_listing_a"], "ListingB": ["o_listing_b"],
     "PairIntStr": ["o_pair_is", "o_pair_Ts"], "PairStrInt": ["o_pair_si"], "PairBoolStr": ["o_pair_Ts"],
     "Node": ["o_node3", "o_node1"], "ListNode": ["o_lnode"], "Tree": ["o_tree3"], "RA": ["o_ra"], "RB": ["o_rb"],
     "LinkedInt": ["o_linked_int"], "LinkedStr": ["o_linked_str"], "LinkedBool": ["o_linked_bool"],
@@ -743,7 +826,26 @@ RECIPES: Dict[str, Any] = {
     "dumper_scoped": lambda: [dumper(P[Node].value, str)],
     "asis_m2": lambda: [as_is_loader(M2)],
     "flag_names": lambda: [flag_by_member_names(Perm)],
+    # location-bound name mappings: the same model is laid out differently depending on where it is reached from
+    "nm_scoped_upper": lambda: [name_mapping(P[Outer1].inner, name_style=NameStyle.UPPER)],
+    "nm_scoped_node": lambda: [name_mapping(P[Holder].first, name_style=NameStyle.UPPER)],
+    "nm_maps": lambda: [name_mapping(M1, map={"a": "m1_a"}), name_mapping(map={"a": "legacy_a"})],
     "unsupported_fix": lambda: [loader(typing.Callable[[int], int], lambda x: x), dumper(typing.Callable[[int], int], lambda x: None)],
+}
+
+# the types a recipe variant is about: histories on a retort with that recipe are steered towards them
+RECIPE_TYPES: Dict[str, List[str]] = {
+    "nm_scoped_upper": ["Outer1", "Outer2", "Inner"], "nm_scoped_node": ["Holder", "Node", "ListNode", "Outer1"],
+    "nm_maps": ["M1", "M2", "M3", "ListM1", "ListM2", "UM1M3"], "chain_node_children": ["Outer1", "Outer2", "Node", "Holder"],
+    "scoped_int": ["M1", "M2", "ListM1", "int"], "scoped_node_value": ["Node", "Holder", "Outer1", "ListNode"],
+    "scoped_linked_head": ["LinkedInt", "LinkedStr", "LinkedBool"], "enum_by_name": ["Color", "Shade", "LitColorR", "LitShade"],
+    "flag_names": ["Perm"], "validator_inner": ["Inner", "Outer1", "Outer2"], "dumper_scoped": ["Node", "Holder", "ListNode"],
+    "nm_as_list": ["M1", "ListM1", "M2"], "nm_extra_collect": ["WithExtra", "KwModel"], "nm_extra_forbid": ["Inner", "Outer1"],
+    "asis_m2": ["M2", "ListM2", "M1"], "unsupported_fix": ["Unsupported", "ListUnsupported", "CallableT"],
+    "nm_snake_only": ["SnakeCase"], "nm_camel": ["SnakeCase", "M1"], "nm_camel_shared": ["SnakeCase", "RA", "RB"],
+    "chain_int_last": ["int", "M1", "ListInt", "GInt"], "chain_int_shared": ["int", "M1", "ListInt"],
+    "chain_int_first": ["int", "M1"], "dumper_int_str": ["int", "M1", "ListInt", "Node"],
+    "nm_omit_default": ["WithDefaults", "Tree", "M1", "LinkedInt"], "nm_extra_forbid_all": ["M1", "Inner", "Node"],
 }
 
 DEBUG_TRAILS = {"ALL": DebugTrail.ALL, "FIRST": DebugTrail.FIRST, "DISABLE": DebugTrail.DISABLE}
@@ -790,9 +892,34 @@ def build_flat(flat):
     raise ValueError(base)
 
 
+def _hijack(x):
+    return "HIJACKED"
+
+
 def build_base(desc):
-    """The retort at the root of a handle chain (what the client constructs itself)."""
-    return build_flat({"base": desc["base"], "opts": desc.get("opts", {}), "recipes": [desc.get("recipe", "plain")]})
+    """The retort at the root of a handle chain (what the client constructs itself). `recipe_as` is a client
+    fault: the recipe is handed over as a one-shot generator, or as a list that the client clears and refills
+    with another provider right after construction. A retort must have taken its own copy."""
+    how = desc.get("recipe_as", "list")
+    if how == "list" or desc["base"] not in ("Retort", "ConversionRetort"):
+        return build_flat({"base": desc["base"], "opts": desc.get("opts", {}), "recipes": [desc.get("recipe", "plain")]})
+    table = RECIPES if desc["base"] == "Retort" else CONV_RECIPES
+    providers = list(table[desc.get("recipe", "plain")]())
+    o = desc.get("opts", {})
+    kw = {}
+    if desc["base"] == "Retort":
+        if "strict_coercion" in o:
+            kw["strict_coercion"] = o["strict_coercion"]
+        if "debug_trail" in o:
+            kw["debug_trail"] = DEBUG_TRAILS[o["debug_trail"]]
+    cls = Retort if desc["base"] == "Retort" else ConversionRetort
+    if how == "generator":
+        return cls(recipe=(p for p in providers), **kw)
+    lst = list(providers)
+    retort = cls(recipe=lst, **kw)
+    del lst[:]
+    lst.append(loader(int, _hijack) if desc["base"] == "Retort" else coercer(int, int, _hijack))
+    return retort
 
 
 def apply_step(retort, base, step):
@@ -803,5 +930,8 @@ def apply_step(retort, base, step):
         return retort.replace(**kw)
     if step[0] == "extend":
         table = CONV_RECIPES if base in ("ConversionRetort", "global_conversion") else RECIPES
-        return retort.extend(recipe=table[step[1]]())
+        providers = table[step[1]]()
+        if len(step) > 2 and step[2] == "generator":
+            return retort.extend(recipe=(p for p in providers))
+        return retort.extend(recipe=providers)
     raise ValueError(step)
